@@ -1912,25 +1912,25 @@ fn format_table_field_key_ir(
         return Vec::new();
     };
 
-    match key {
-        LuaIndexKey::Name(name) => vec![ir::source_token(name.syntax().clone())],
-        LuaIndexKey::String(string) => vec![
-            ir::syntax_token(LuaTokenKind::TkLeftBracket),
-            ir::source_token(string.syntax().clone()),
-            ir::syntax_token(LuaTokenKind::TkRightBracket),
-        ],
-        LuaIndexKey::Integer(number) => vec![
-            ir::syntax_token(LuaTokenKind::TkLeftBracket),
-            ir::source_token(number.syntax().clone()),
-            ir::syntax_token(LuaTokenKind::TkRightBracket),
-        ],
-        LuaIndexKey::Expr(expr) => vec![
-            ir::syntax_token(LuaTokenKind::TkLeftBracket),
-            ir::list(format_expr(ctx, plan, &expr)),
-            ir::syntax_token(LuaTokenKind::TkRightBracket),
-        ],
-        LuaIndexKey::Idx(_) => Vec::new(),
+    // `{ [ [[k]] ] = v }`: without the blanks the brackets would fuse into `[[[k]]]`
+    let pad_brackets = index_key_is_long_string(&key);
+    let inner = match key {
+        LuaIndexKey::Name(name) => return vec![ir::source_token(name.syntax().clone())],
+        LuaIndexKey::String(string) => ir::source_token(string.syntax().clone()),
+        LuaIndexKey::Integer(number) => ir::source_token(number.syntax().clone()),
+        LuaIndexKey::Expr(expr) => ir::list(format_expr(ctx, plan, &expr)),
+        LuaIndexKey::Idx(_) => return Vec::new(),
+    };
+    let mut docs = vec![ir::syntax_token(LuaTokenKind::TkLeftBracket)];
+    if pad_brackets {
+        docs.push(ir::space());
     }
+    docs.push(inner);
+    if pad_brackets {
+        docs.push(ir::space());
+    }
+    docs.push(ir::syntax_token(LuaTokenKind::TkRightBracket));
+    docs
 }
 
 fn format_table_field_value_ir(
@@ -3437,7 +3437,10 @@ fn format_index_access_ir(
                 docs.push(ir::syntax_token(LuaTokenKind::TkSafeNavigation));
             }
             docs.push(ir::syntax_token(LuaTokenKind::TkLeftBracket));
-            if ctx.config.spacing.space_inside_brackets {
+            // `a[ [[k]] ]`: without the blanks the brackets would fuse into `[[[k]]]`
+            let pad_brackets = ctx.config.spacing.space_inside_brackets
+                || expr.get_index_key().is_some_and(|key| index_key_is_long_string(&key));
+            if pad_brackets {
                 docs.push(ir::space());
             }
             if let Some(key) = expr.get_index_key() {
@@ -3455,13 +3458,27 @@ fn format_index_access_ir(
                     LuaIndexKey::Idx(_) => {}
                 }
             }
-            if ctx.config.spacing.space_inside_brackets {
+            if pad_brackets {
                 docs.push(ir::space());
             }
             docs.push(ir::syntax_token(LuaTokenKind::TkRightBracket));
         }
     }
     docs
+}
+
+/// A `[[long string]]` (or an expression starting/ending with one) used as a bracketed key.
+fn index_key_is_long_string(key: &LuaIndexKey) -> bool {
+    let is_long = |token: Option<LuaSyntaxToken>| {
+        token.is_some_and(|token| token.kind() == LuaTokenKind::TkLongString.into())
+    };
+    match key {
+        LuaIndexKey::String(string) => is_long(Some(string.syntax().clone())),
+        LuaIndexKey::Expr(expr) => {
+            is_long(expr.syntax().first_token()) || is_long(expr.syntax().last_token())
+        }
+        _ => false,
+    }
 }
 
 fn format_named_index_key_ir(expr: &LuaIndexExpr) -> Vec<DocIR> {
